@@ -1,4 +1,5 @@
 import KeepVerif.Proofs.C40Members
+import KeepVerif.Proofs.C40Inj
 /-!
 # C40 — Key generation results and inactivity claims satisfy the on-chain rules
 
@@ -1103,5 +1104,49 @@ theorem claim_signatures_validate (H : Bytes → Bytes) (recover : Bytes → Byt
   obtain ⟨hpick, hloop⟩ := converted_signatures_check recover addrOf sign hlaw inp.sigs inp.ids
     (ethSigned H (H pre)) inactSignatureByteSize c2 hpos signers sigBytes hconv hrange hsigned
   simp only [verifyClaimSignatures, e2', hpick, hloop]
+
+/-! ## the signed pre-images determine the signed fields (`abi.encode` injectivity) -/
+
+/-- **The DKG signed message binds its fields.** Two (chain id, result, start block) triples whose
+    `validateSignatures` pre-images are equal agree on the chain id, the group public key, the
+    misbehaved indexes and the start block (`encode_inj` instantiated at the contract's type list;
+    with A-hash — keccak256 injective — equal hashes therefore mean equal fields). -/
+theorem dkg_preimage_injective (c c' s s' : Nat) (r r' : DkgResult) (b : Bytes)
+    (hk : r.groupPubKey.length < 2 ^ 256) (hk' : r'.groupPubKey.length < 2 ^ 256)
+    (hm : r.misbehaved.length < 2 ^ 256) (hm' : r'.misbehaved.length < 2 ^ 256)
+    (h : dkgSigPreimageContract c r s = some b) (h' : dkgSigPreimageContract c' r' s' = some b) :
+    c = c' ∧ r.groupPubKey = r'.groupPubKey ∧ r.misbehaved = r'.misbehaved ∧ s = s' := by
+  have hty : Gen.C40.solDkgSigTypes.mapM Ty.parse = some [.uint 256, .bytes, .uintArr 8, .uint 256] := by
+    decide
+  simp only [dkgSigPreimageContract, encodeTyped, hty, List.length_cons, List.length_nil, if_true] at h h'
+  have := encode_inj [.uint 256, .bytes, .uintArr 8, .uint 256] _ _ b
+    (by intro ty hty; simp only [List.mem_cons, List.not_mem_nil, or_false] at hty
+        rcases hty with rfl | rfl | rfl | rfl <;> simp [Ty.ok])
+    (by intro v hv; simp only [List.mem_cons, List.not_mem_nil, or_false] at hv
+        rcases hv with rfl | rfl | rfl | rfl <;> simp [Val.lenOk, hk, hm])
+    (by intro v hv; simp only [List.mem_cons, List.not_mem_nil, or_false] at hv
+        rcases hv with rfl | rfl | rfl | rfl <;> simp [Val.lenOk, hk', hm'])
+    rfl rfl h h'
+  simpa using this
+
+/-- **The inactivity claim's signed message binds its fields**: chain id, nonce, wallet public
+    key, accused indexes and the heartbeat flag. -/
+theorem claim_preimage_injective (c c' n n' : Nat) (k k' : Bytes) (cl cl' : Claim) (b : Bytes)
+    (hk : k.length < 2 ^ 256) (hk' : k'.length < 2 ^ 256)
+    (hm : cl.inactive.length < 2 ^ 256) (hm' : cl'.inactive.length < 2 ^ 256)
+    (h : claimPreimageContract c n k cl = some b) (h' : claimPreimageContract c' n' k' cl' = some b) :
+    c = c' ∧ n = n' ∧ k = k' ∧ cl.inactive = cl'.inactive ∧ cl.heartbeatFailed = cl'.heartbeatFailed := by
+  have hty : Gen.C40.solInactTypes.mapM Ty.parse =
+      some [.uint 256, .uint 256, .bytes, .uintArr 256, .bool] := by decide
+  simp only [claimPreimageContract, encodeTyped, hty, List.length_cons, List.length_nil, if_true] at h h'
+  have := encode_inj [.uint 256, .uint 256, .bytes, .uintArr 256, .bool] _ _ b
+    (by intro ty hty; simp only [List.mem_cons, List.not_mem_nil, or_false] at hty
+        rcases hty with rfl | rfl | rfl | rfl | rfl <;> simp [Ty.ok])
+    (by intro v hv; simp only [List.mem_cons, List.not_mem_nil, or_false] at hv
+        rcases hv with rfl | rfl | rfl | rfl | rfl <;> simp [Val.lenOk, hk, hm])
+    (by intro v hv; simp only [List.mem_cons, List.not_mem_nil, or_false] at hv
+        rcases hv with rfl | rfl | rfl | rfl | rfl <;> simp [Val.lenOk, hk', hm'])
+    rfl rfl h h'
+  simpa using this
 
 end KeepVerif.C40
